@@ -1,6 +1,7 @@
 import FeatModel.Model.Assembly
 import FeatModel.Model.Cubature
 import FeatModel.Model.FE
+import FeatModel.Model.TraceOrient
 /-!
 Model of the *local* part of the assembly routes of C16 on affine cells (core Lean only):
 the cell loop of `BilinearOperatorAssembler::assemble_matrix1` / `LinearFunctionalAssembler::assemble_vector` and of the
@@ -139,6 +140,39 @@ def CellData.asCoded (r : Rule) (c : CellData) : CellCall Rat :=
 /-- the same cell with the exact integrals -/
 def CellData.exact (simplex : Bool) (d : Nat) (c : CellData) : CellCall Rat :=
   ⟨c.alpha, c.rowMap, c.colMap, fun i j => cellInt simplex d c.detJ (c.F i j)⟩
+
+/-! ### non-constant Jacobian (multilinear quadrilaterals) and the `jac_det = |det J|` handling -/
+
+/-- the Jacobian determinant of the cell transformation as a polynomial in the reference coordinates (`d ≤ 2`) -/
+def detPoly (k : FE.Kind) (d : Nat) (V : List (List Rat)) : Poly :=
+  let j := fun a b => pderiv b (FE.mapPoly k d V a)
+  match d with
+  | 1 => j 0 0
+  | 2 => add (mul (j 0 0) (j 1 1)) (smul (-1) (mul (j 0 1) (j 1 0)))
+  | _ => []
+
+/-- the local entry as coded with a point-dependent `jac_det = |det J(x_q)|` (`Tiny::Matrix::vol` of a square matrix) -/
+def localEntryVar (r : Rule) (D F : Poly) : Rat :=
+  quadF r 1 (fun x => evalAt x F * FE.rabs (evalAt x D))
+
+/-- the determinant is non-negative / non-positive in every cubature point (decidable; evaluated by the driver) -/
+def Rule.detNonneg (r : Rule) (D : Poly) : Bool := r.x.all fun x => decide (0 ≤ evalAt x D)
+def Rule.detNonpos (r : Rule) (D : Poly) : Bool := r.x.all fun x => decide (evalAt x D ≤ 0)
+
+/-- `DuDvOperator(a, b)` on an affine cell: `[a = b] grad φ_j · grad ψ_i + ∂_a φ_j ∂_b ψ_i`, with the physical derivative
+`∂_a = Σ_c J⁻¹[c][a] ∂_c^ref` -/
+def dudvIntegrand (t : BasisTab) (d : Nat) (g : Geo) (a b i j : Nat) : Poly :=
+  let phys := fun (fn c : Nat) => Poly.sum ((List.range d).map fun e => smul (FE.mat g.jinv e c) (t.grad fn e))
+  add (if a = b then laplIntegrand t d g i j else []) (mul (phys j a) (phys i b))
+
+/-! ### facet (trace) integrals in 3-D -/
+
+/-- the facet local entry as coded by `TraceAssembler::assemble_operator_matrix`: the cell-side integrand `P` (a polynomial
+in the cell's reference coordinates, e.g. `φ_j φ_i`) is evaluated in `cub_cf = FaceRefTrafo(CongruencyTrafo(s_q))`, the
+weight is `|D_f(s_q)| · w_q` with the facet's Jacobian determinant `D_f` (a polynomial for a facet in a coordinate plane) -/
+def facetEntry (r : Rule) (k : FE.Kind) (l code : Nat) (Df P : Poly) : Option Rat :=
+  (TraceOrient.facetMap k l code).map fun ps =>
+    quadF r 1 (fun s => evalAt (ps.map (evalAt s)) P * FE.rabs (evalAt s Df))
 
 /-! ### the exactness table (hand-written specification, discharged by kernel evaluation in Props/C16.lean) -/
 
